@@ -334,6 +334,88 @@ func main() {
 		cs.add("CK "+hx.CoqList(pairs), map[string]int{"groupk_from": base0})
 	}
 
+	// large group sizes (up to 2^52/51, the range of C13_threshold_float_general): ties the integer
+	// model of the float64 division/Ceil far beyond the node's range
+	{
+		var pairs []string
+		lim := (int64(1) << 52) / 51
+		for i := 0; i < 300; i++ {
+			var n int64
+			switch i % 4 {
+			case 0:
+				n = int64(rng.U64()%uint64(lim/100)) * 100 // 51n/100 integral
+			case 1:
+				n = lim - int64(rng.Intn(1000))
+			case 2:
+				n = int64(rng.U64() % uint64(int64(1)<<uint(10+rng.Intn(36))))
+			default:
+				n = int64(rng.U64() % uint64(lim))
+			}
+			k := model.Param.GetGroupK(int(n))
+			want := new(big.Int).Mul(big.NewInt(n), big.NewInt(51))
+			want.Add(want, big.NewInt(99)).Div(want, big.NewInt(100))
+			if want.Cmp(big.NewInt(int64(k))) != 0 {
+				res.Violate("C13/threshold-ceil", fmt.Sprintf("GetGroupK(%d)=%d, ceil(51n/100)=%s", n, k, want), n)
+			}
+			pairs = append(pairs, fmt.Sprintf("(%d,%d)%%Z", n, k))
+			res.Count("groupk-large", fmt.Sprint("K", n), true)
+		}
+		cs.add("CK "+hx.CoqList(pairs), map[string]string{"groupk": "large"})
+	}
+
+	// outside the guard k <= n: RecoverGroupSignature with a threshold larger than the map (padded nil
+	// signatures) and with threshold 0; outcome classes only - both GroupSignGenerator copies call it
+	// under len(map) >= threshold and GetGroupK(n) >= 1, so this is not reachable from the collector
+	for i := 0; i < 24; i++ {
+		n := rng.Intn(5)
+		k := n + 1 + rng.Intn(3)
+		if i%4 == 3 {
+			n, k = 1+rng.Intn(4), 0
+		}
+		m := map[string]groupsig.Signature{}
+		msg := rng.Bytes(8)
+		for _, x := range distinctIDs(rng, n) {
+			m[mkID(x).GetHexString()] = groupsig.Sign(mkSec(randScalar(rng, false)), msg)
+		}
+		class := "returned"
+		func() {
+			defer func() {
+				if p := recover(); p != nil {
+					class = "panic"
+				}
+			}()
+			if sg := groupsig.RecoverGroupSignature(m, k); sg == nil {
+				class = "nil"
+			}
+		}()
+		if k == 0 {
+			res.Count("outside-guard:k=0:"+class, fmt.Sprint("og", i), false)
+		} else {
+			res.Count("outside-guard:k>n:"+class, fmt.Sprint("og", i), false)
+		}
+	}
+	// a collector that is short of the threshold never calls the recovery
+	for n := 0; n < 4; n++ {
+		gen := model.NewGroupSignGenerator(n + 1)
+		msg := rng.Bytes(8)
+		func() {
+			defer func() {
+				if p := recover(); p != nil {
+					res.Violate("C13/collector-short-panic", fmt.Sprint(p), n)
+				}
+			}()
+			for _, x := range distinctIDs(rng, n) {
+				if _, gend := gen.AddWitnessSign(mkID(x), groupsig.Sign(mkSec(randScalar(rng, false)), msg)); gend {
+					res.Violate("C13/collector-short-generated", fmt.Sprintf("generated with %d of %d shares", n, n+1), n)
+				}
+			}
+			if gen.SignRecovered() {
+				res.Violate("C13/collector-short-generated", fmt.Sprintf("recovered with %d of %d shares", n, n+1), n)
+			}
+		}()
+		res.Count("collector-short", fmt.Sprint("cs", n), n >= 1)
+	}
+
 	nShare, nAgg, nRec, nGen := a.N/4, a.N/10, a.N/3, a.N/5
 	// ---- ShareSeckey ----
 	for i := 0; i < nShare; i++ {
